@@ -236,6 +236,14 @@ func loadSpecial(x value, t types.Type) value {
 	switch x := x.(type) {
 	case viewRef:
 		return x.v.get(nil, x.idx)
+	case symElemRef:
+		ps := psOf(x.idx)
+		v := ps.i.indexRead(x.elems, x.idx, x.it)
+		if _, isStruct := t.Underlying().(*types.Struct); isStruct {
+			cell := v
+			return load(t, &cell)
+		}
+		return v
 	}
 	panic(fmt.Sprintf("load through %T", x))
 }
